@@ -53,11 +53,19 @@ pub async fn on_document_selection_range_handle(
             ranges.push(range);
         }
 
-        // a node that spans exactly its child is not a larger selection
-        ranges.dedup();
+        // Selection ranges must grow outward: a range is kept only if it strictly contains the
+        // previously kept one (a node spanning exactly its child is not a larger selection, and
+        // two overlapping markup items of a description are not child and parent).
+        let mut nested: Vec<TextRange> = Vec::with_capacity(ranges.len());
+        for range in ranges {
+            match nested.last() {
+                Some(last) if !range.contains_range(*last) || range == *last => {}
+                _ => nested.push(range),
+            }
+        }
 
         let mut parent: Option<Box<SelectionRange>> = None;
-        for range in ranges.into_iter().rev() {
+        for range in nested.into_iter().rev() {
             let lsp_range = document.to_lsp_range(range)?;
             let selection_range = SelectionRange {
                 range: lsp_range,
